@@ -11,7 +11,7 @@
 //! sync phase ended and no live phase reads a stray sync frame (session must not fail).
 use std::cell::RefCell;
 use std::collections::BTreeMap;
-use std::time::Duration;
+use std::time::{Duration, Instant};
 
 use explorer::task::{disown_select, own_select, End, Exec};
 use explorer::{catch, dfs, json, Chooser, DfsCfg, Report};
@@ -144,7 +144,7 @@ fn syms(wire: &[crate::session::Msg]) -> Vec<Sym> {
 // Parts 1 and 2: LogSync
 // ------------------------------------------------------------------------------------------
 
-fn log_sync_parts(rep: &mut Report, w: &World, configs: &[Config], dev_free: usize, dev_fault: usize, wall: Duration) {
+fn log_sync_parts(rep: &mut Report, w: &World, configs: &[Config], dev_free: usize, dev_fault: usize, wall: Instant) {
     let authors = w.chains.authors.clone();
     let acc = par_for(configs, rep.args.threads, wall, |idx, cfg, acc: &mut Acc| {
         // ---- part 1: no concurrent change
@@ -308,8 +308,8 @@ fn run_topic_pair(ch: &Chooser, w: &World, cfg: &Config, plan: Option<(usize, us
     let fs = [mk(0), mk(1)];
     let ((mut a_tx, mut a_rx), (mut b_tx, mut b_rx)) = duplex::<TMsg>(Cap::Unbounded);
     let st = [a_tx.st.clone(), b_tx.st.clone()];
-    let (ev_a, mut evr_a) = broadcast::channel::<TopicLogSyncEvent<Ext>>(4096);
-    let (ev_b, mut evr_b) = broadcast::channel::<TopicLogSyncEvent<Ext>>(4096);
+    let (ev_a, mut evr_a) = broadcast::channel::<TopicLogSyncEvent<Ext>>(64);
+    let (ev_b, mut evr_b) = broadcast::channel::<TopicLogSyncEvent<Ext>>(64);
     let (mut live_a_tx, live_a_rx) = mpsc::channel::<ToSync<Op>>(16);
     let (live_b_tx, live_b_rx) = mpsc::channel::<ToSync<Op>>(16);
     // A is told to close as soon as it is in live mode (the request waits in the live channel).
@@ -372,7 +372,7 @@ fn frame_violation(frames: &[Frame]) -> Option<&'static str> {
     None
 }
 
-fn topic_part(rep: &mut Report, w: &World, configs: &[Config], dev: usize, wall: Duration) {
+fn topic_part(rep: &mut Report, w: &World, configs: &[Config], dev: usize, wall: Instant) {
     let authors = w.chains.authors.clone();
     let acc = par_for(configs, rep.args.threads, wall, |idx, cfg, acc: &mut Acc| {
         let judge = |acc: &mut Acc, ch: &Chooser, run: &TopicRun, label: &str, what: String, replay: explorer::Value, rank: (u64, u64, u64)| {
@@ -500,9 +500,14 @@ pub fn run(mut rep: Report) -> i32 {
     };
     rep.rule = "configuration = per (author, log) slot the heights {none,0,1,2} of both sides (chains of length 4); mutation = prune(until) for every until, delete of every stored operation, insert of the next operation, insert of a prune-flagged next operation + prune, applied to one side's store before its store call k for every k of the fault-free run; non-trivial = mutation that lands after the side read its heights and before it read the entries of the mutated log".into();
     rep.set("configurations", json!({"log_sync": configs.len(), "topic_log_sync": topic_configs.len()}));
-    let wall = Duration::from_secs(if thorough { 270 } else { 17 });
+    let t0 = Instant::now();
+    let wall = t0 + Duration::from_secs(if thorough { 420 } else { 28 });
     log_sync_parts(&mut rep, &w, &configs, dev_free, dev_fault, wall);
+    let wall = t0 + Duration::from_secs(if thorough { 560 } else { 40 });
+    rep.set("log_sync_wall_s", json!(t0.elapsed().as_secs_f64()));
+    let t1 = std::time::Instant::now();
     topic_part(&mut rep, &w, &topic_configs, dev_free.min(1), wall);
+    rep.set("topic_log_sync_wall_s", json!(t1.elapsed().as_secs_f64()));
     rep.assume("a concurrent writer is modelled as one committed mutation between two store calls of the session (MemStore, store calls are atomic)");
     rep.assume("prune-flagged insertions are only generated where the other side is not ahead (no forks)");
     rep.assume("a session that does not complete (hang or error) after a concurrent change is reported as a violation of 'sends exactly one Done'");
